@@ -72,6 +72,10 @@ def run(ctx):
     check_inputs_unmodified(ctx)
     from .C04 import check_loss
     check_loss(ctx, repo.nfunc(PI, 'PublicInference._marginal_loss'))
+    from ._generic import horner_index_dtype
+    for q_, f_ in sorted(repo.module(PI).funcs.items()):
+        if '<locals>' not in q_:
+            horner_index_dtype(ctx, f_, 'gradient-form')
     check_weight_gradient(ctx, est)
 
 
